@@ -2,10 +2,14 @@ import NibabelModel.Model.C14
 import Driver.Util
 /-! Line-protocol driver for C14: `C14 <op> <args...>` -> one observable line.
 
-  `run <scn> <mmap> <order> <isz> <off> <flen> <shape> <progs> <sched>`
-      scn   = fh (proxy over an open handle, `c` reads go through its copy()) | keep (path, keep_file_open=True)
-      progs = threads separated by `|`; reads of a thread separated by `/`; a read is `<p|c>[L]=<W|idx>`
-              (`W` = np.asarray(proxy), idx in the C06 syntax, `L` = caller holds `proxy._lock` around the read)
+  `run <scn> <mmap> <order> <isz> <off> <flen> <shape> <topo> <progs> <sched>`
+      scn   = fh (proxy over an open BytesIO handle) | fhmin (handle object without fileno/readinto) |
+              fhos (real OS file object passed as the handle: np.memmap succeeds) |
+              keep (path, keep_file_open=True) | keepgz (.gz path, keep_file_open=True)
+      topo  = `-` or comma separated derivations of further proxies from existing ones: `c<src>` = copy(),
+              `u<src>` = copy.copy()/unpickle (__setstate__), `r<src>:<d0>x<d1>..` = reshape(); proxy 0 = original
+      progs = threads separated by `|`; reads of a thread separated by `/`; a read is `p<k>[L]=<W|idx>`
+              (`W` = np.asarray(proxy k), idx in the C06 syntax, `L` = caller holds `proxy._lock` around the read)
       sched = comma separated thread ids (`-` = empty)
       output: `<event trace> | <per-thread results>`
   `raw <flen> <nh> <progs> <sched>`: explicit action programs (threads `|`, actions `,`):
@@ -57,23 +61,65 @@ def parseIdx? (s : String) : Option (List C06.IdxItem) :=
 
 def parseSched? (s : String) : Option (List Nat) := parseNatList? s
 
-def parseReq? (hasFh : Bool) (s : String) : Option Req :=
+/-- proxy table of a run: lock and shape of every proxy (index 0 = the original) -/
+structure PTab where
+  locks  : List Nat
+  shapes : List (List Nat)
+
+/-- one derivation step `c<src>` (copy), `u<src>` (copy.copy / unpickle), `r<src>:<d0>x<d1>…` (reshape) -/
+def parsePOp? (s : String) : Option (POp × Option (List Nat)) :=
+  let arg := (s.drop 1).toString
+  if s.startsWith "c" then arg.toNat?.map (fun k => (POp.copy k, none))
+  else if s.startsWith "u" then arg.toNat?.map (fun k => (POp.setstate k, none))
+  else if s.startsWith "r" then
+    match arg.splitOn ":" with
+    | [k, shp] =>
+        match k.toNat?, (shp.splitOn "x").mapM String.toNat? with
+        | some k, some shp => some (POp.reshape k, some shp)
+        | _, _ => none
+    | _ => none
+  else none
+
+/-- build the proxy table; ill-formed histories (source does not exist, reshape changes the size) → none -/
+def buildTab (hasFh : Bool) (shape : List Nat) (topo : String) : Option PTab :=
+  if topo = "-" then some ⟨proxyLocks hasFh [], [shape]⟩ else
+  match (topo.splitOn ",").mapM parsePOp? with
+  | none => none
+  | some steps =>
+      let ops := steps.map (·.1)
+      if !validOps 1 ops then none else
+      let shapes? := steps.foldl (fun (acc : Option (List (List Nat))) st =>
+        match acc with
+        | none => none
+        | some shs =>
+            let src := shs.getD st.1.src []
+            match st.2 with
+            | none => some (shs ++ [src])
+            | some shp => if shp.foldl (· * ·) 1 = src.foldl (· * ·) 1 then some (shs ++ [shp]) else none)
+        (some [shape])
+      shapes?.map (fun shs => ⟨proxyLocks hasFh ops, shs⟩)
+
+/-- a read `p<k>[L]=<W|idx>` through proxy `k`; returns the request and the shape of that proxy -/
+def parseReq? (tab : PTab) (s : String) : Option (Req × List Nat) :=
   match s.splitOn "=" with
   | [who, idx] =>
-      let lockOuter : Option (Nat × Bool) :=
-        if who = "p" then some (0, false) else if who = "pL" then some (0, true)
-        else if who = "c" ∧ hasFh then some (copyLock hasFh 0 1, false)
-        else if who = "cL" ∧ hasFh then some (copyLock hasFh 0 1, true)
-        else none
-      match lockOuter with
+      if !who.startsWith "p" then none else
+      let outer := who.endsWith "L"
+      let num := String.ofList ((who.toList.drop 1).filter (· != 'L'))
+      match num.toNat? with
       | none => none
-      | some (l, o) =>
-          if idx = "W" then some ⟨l, o, none⟩
-          else (parseIdx? idx).map (fun i => ⟨l, o, some i⟩)
+      | some k =>
+          if who ≠ "p" ++ num ++ (if outer then "L" else "") then none else
+          if k < tab.locks.length then
+            let l := tab.locks.getD k 0
+            let shp := tab.shapes.getD k []
+            if idx = "W" then some (⟨l, outer, none⟩, shp)
+            else (parseIdx? idx).map (fun i => (⟨l, outer, some i⟩, shp))
+          else none
   | _ => none
 
-def parseThread? (hasFh : Bool) (s : String) : Option (List Req) :=
-  if s = "-" then some [] else (s.splitOn "/").mapM (parseReq? hasFh)
+def parseThread? (tab : PTab) (s : String) : Option (List (Req × List Nat)) :=
+  if s = "-" then some [] else (s.splitOn "/").mapM (parseReq? tab)
 
 def parseAction? (s : String) : Option Action :=
   let arg := (s.drop 1).toString
@@ -114,17 +160,29 @@ def fullSched (file : List Byte) (n : Nat) (progs : Tid → List Action) (s0 : S
   sched ++ complete file n fuel (runS file s0 sched) sched.getLast?
 
 def handle : List String → String
-  | ["run", scn, mm, ord, isz, off, flen, shape, progs, sched] =>
-      match (if scn = "fh" then some false else if scn = "keep" then some true else none),
+  | ["run", scn, mm, ord, isz, off, flen, shape, topo, progs, sched] =>
+      -- scenario → (persistent opener, np.memmap succeeds on the handle, compressed-file object)
+      let scn? : Option (Bool × Bool × Bool) :=
+        if scn = "fh" ∨ scn = "fhmin" then some (false, false, false)
+        else if scn = "fhos" then some (false, true, false)
+        else if scn = "keep" then some (true, true, false)
+        else if scn = "keepgz" then some (true, false, true)
+        else none
+      match scn?,
             (if mm = "1" then some true else if mm = "0" then some false else none),
             (if ord = "C" then some C06.Order.C else if ord = "F" then some C06.Order.F else none),
             isz.toNat?, off.toNat?, flen.toNat?, parseNatList? shape, parseSched? sched with
-      | some persist, some mmap, some o, some isz, some off, some flen, some shape, some sched =>
-          match (progs.splitOn "|").mapM (parseThread? (!persist)) with
+      | some (persist, mappable, compressed), some mmap, some o, some isz, some off, some flen, some shape, some sched =>
+          if persist ∧ topo ≠ "-" then "bad-op" else
+          match buildTab (!persist) shape topo with
+          | none => "bad-op"
+          | some tab =>
+          match (progs.splitOn "|").mapM (parseThread? tab) with
           | none => "bad-op"
           | some reqs =>
-              let c : Cfg := ⟨persist, mmap, o, isz, off, flen, shape⟩
-              let plans := reqs.map (fun th => th.map (plan c))
+              let c : Cfg := { persist := persist, mmap := mmap, order := o, isz := isz, off := off, flen := flen,
+                               shape := shape, mappable := mappable, compressed := compressed }
+              let plans := reqs.map (fun th => th.map (fun rq => plan { c with shape := rq.2 } rq.1))
               let prog : Tid → List Action := fun t => ((plans.getD t []).map (·.prog)).flatten
               let file := mkFile c
               let s0 := State.init prog (if persist then 0 else 1)
